@@ -7,6 +7,8 @@ import (
 	"fmt"
 	"io"
 	"sort"
+	"sync"
+	"sync/atomic"
 
 	"github.com/kubewharf/kubebrain/pkg/storage"
 
@@ -23,7 +25,7 @@ func init() {
 		Plan: func(tier string) Plan {
 			return Plan{Level: "exploration", NCases: pick(tier, 240, 6000), Batch: 10, CaseTimeout: 60,
 				Rule: "one case = one PRNG sequence of 20-200 steps on one engine (memkv / Badger / TiKV mock, each also behind the metrics wrapper with the real Prometheus client): " +
-					"batches of 1-4 ops from {put-if-absent, CAS, put, del, delete-current} on distinct keys incl. several conditions per batch and conditions on missing keys; Get; Del; DelCurrent; forward/backward/limited Iter with bounds on/between/outside keys and writes slipped in between creating and draining the iterator. " +
+					"batches of 1-4 ops from {put-if-absent, CAS, put, del, delete-current} on distinct keys incl. several conditions per batch and conditions on missing keys; Get; Del; DelCurrent; forward/backward/limited Iter with bounds on/between/outside keys and writes slipped in between creating and draining the iterator; every 5th case instead runs 8 concurrent readers (iterators with non-stored bounds, gets of missing keys) over an unchanging store, whose results must be exact. " +
 					"oracle = sorted-map reference in lock-step (all-or-nothing batches, failure <=> some condition false and then errors.Is(err, ErrCASFailed), iterator output = reference slice of the snapshot at creation, or a prefix of length >= limit). " +
 					"non-trivial = sequence with >=1 failed multi-op batch, >=1 backward and >=1 limited iteration and >=1 write slipped under an open iterator; distinct by (engine, step-kind/outcome vector)",
 				Assumptions: []string{"TTL argument is always 0", "ops of one batch touch distinct keys (the contract does not define same-key ordering)",
@@ -68,9 +70,112 @@ func (r *refKV) slice(start, end string) []string {
 	return out
 }
 
+// runC11Readers: concurrent readers (iterators whose bounds are not stored keys, gets of missing keys) over a
+// store that does not change: every result must be exact, readers must not see each other's bookkeeping.
+func runC11Readers(c *harness.Case, kind string) {
+	r := c.Rng
+	eng, err := harness.NewEngine(kind)
+	if err != nil {
+		c.Inconclusive(err.Error())
+		return
+	}
+	defer eng.Close()
+	kv := eng.KV
+	if harness.IsMetricsKind(kind) {
+		kv = harness.WithMetrics(kv, harness.NewRecMetrics(true))
+	}
+	ctx := context.Background()
+	ref := &refKV{m: map[string][]byte{}}
+	for i := 0; i < 40; i++ {
+		k := fmt.Sprintf("k%03d", i*2)
+		v := []byte(fmt.Sprintf("v%d", i))
+		b := kv.BeginBatchWrite()
+		b.Put([]byte(k), v, 0)
+		if err := b.Commit(ctx); err != nil {
+			c.Inconclusive("put failed: " + err.Error())
+			return
+		}
+		ref.m[k] = v
+	}
+	var wg sync.WaitGroup
+	var mu sync.Mutex
+	bad := ""
+	nIter, nGet := int64(0), int64(0)
+	for g := 0; g < 8; g++ {
+		wg.Add(1)
+		rr := newRand(r.Int63())
+		go func() {
+			defer wg.Done()
+			for i := 0; i < 300; i++ {
+				mu.Lock()
+				stop := bad != ""
+				mu.Unlock()
+				if stop {
+					return
+				}
+				a, b := fmt.Sprintf("k%03d", rr.Intn(82)), fmt.Sprintf("k%03d", rr.Intn(82)) // odd numbers are never stored
+				if a == b {
+					continue
+				}
+				if rr.Intn(3) == 0 {
+					got, err := kv.Get(ctx, []byte(a))
+					atomic.AddInt64(&nGet, 1)
+					want, has := ref.m[a]
+					if (has && (err != nil || !bytes.Equal(got, want))) || (!has && err != storage.ErrKeyNotFound) {
+						mu.Lock()
+						bad = fmt.Sprintf("concurrent Get(%q) = (%q,%v); the store holds %q (present=%v) and nobody writes", a, got, err, want, has)
+						mu.Unlock()
+						return
+					}
+					continue
+				}
+				it, err := kv.Iter(ctx, []byte(a), []byte(b), 0, 0)
+				if err != nil {
+					continue
+				}
+				var got []string
+				for {
+					if err := it.Next(ctx); err != nil {
+						break
+					}
+					k := string(it.Key())
+					if wv, ok := ref.m[k]; !ok || !bytes.Equal(wv, it.Val()) {
+						mu.Lock()
+						bad = fmt.Sprintf("concurrent Iter(%q,%q) yielded %q=%q which was never written (store value %q)", a, b, k, it.Val(), wv)
+						mu.Unlock()
+					}
+					got = append(got, k)
+				}
+				it.Close()
+				atomic.AddInt64(&nIter, 1)
+				if want := ref.slice(a, b); !eqStr(got, want) {
+					mu.Lock()
+					if bad == "" {
+						bad = fmt.Sprintf("concurrent Iter(%q,%q) yielded %q; the unchanging store holds %q in that interval", a, b, got, want)
+					}
+					mu.Unlock()
+					return
+				}
+			}
+		}()
+	}
+	wg.Wait()
+	if bad != "" {
+		c.Violatef("C11 concurrent-readers-disturb-each-other engine="+eng.Kind, map[string]interface{}{"engine": kind}, "%s", bad)
+	}
+	c.Stat("concurrent_iterations", nIter)
+	c.Stat("concurrent_gets", nGet)
+	c.AddSet("engines", kind)
+	c.Fingerprint(true, "readers", kind, c.Index)
+}
+
 func runC11(c *harness.Case) {
 	r := c.Rng
 	kind := c11Engines[c.Index%len(c11Engines)]
+	if (c.Index/len(c11Engines))%5 == 4 {
+		runC11Readers(c, kind)
+		return
+	}
 	eng, err := harness.NewEngine(kind)
 	if err != nil {
 		c.Inconclusive(err.Error())
